@@ -15,6 +15,7 @@ yields, variations, uncertainties and **observations** symbolic) is pushed throu
 * `comb`      Workspace.combine(prSR, prCR)       (the two halves joined again)
 * `split`     the signal sample split into two samples with identical modifiers           (C15 rewrites, built as specifications)
 * `ghost`     an additional zero-yield sample;  `null`: an additional shape systematic whose variations equal the nominal
+* `chsplit`   the two bins of SR as two one-bin channels
 
 For each, `Model.logpdf` on the workspace's own data (`Workspace.data`: observations in the model's channel order followed by the
 configured auxiliary data) is executed with every parameter symbolic and the two log-density primitives uninterpreted; the full value
@@ -79,6 +80,18 @@ def null_spec():
     return s
 
 
+def chsplit_spec():
+    """the two bins of SR as two one-bin channels (the MC-statistical modifier, being per channel, becomes one per new channel)"""
+    s = base_spec(); v = var
+    sig_mods = lambda: [mod('normfactor', 'mu'), mod('normsys', 'sysA', {'lo': v('slo'), 'hi': v('shi')})]
+    new = [{'name': f'SR{b}', 'samples': [
+        {'name': 'signal', 'data': [v(f's{b}')], 'modifiers': sig_mods()},
+        {'name': 'bkg', 'data': [v(f'b{b}')], 'modifiers': [mod('normfactor', 'k_bkg'), mod('staterror', f'stat_SR{b}', [v(f'e{b}')])]}]} for b in range(2)]
+    s['channels'] = [s['channels'][0]] + new
+    s['observations'] = [s['observations'][0]] + [{'name': f'SR{b}', 'data': [v(f'os{b}')]} for b in range(2)]
+    return s
+
+
 def shuffled(spec):
     s = copy.deepcopy(spec)
     s['channels'].reverse(); s['observations'].reverse()
@@ -123,6 +136,7 @@ def generate():
 
     def base_name(parname):
         """the base-workspace name of a (possibly renamed) parameter, e.g. 'astat[1]' -> 'stat_SR[1]'"""
+        if re.fullmatch(r'stat_SR\d(\[0\])?', parname): return f'stat_SR[{parname[7]}]'        # the channel-split variant
         m = re.fullmatch(r'([^\[]+)(\[\d+\])?', parname)
         return inv['modifiers'].get(m.group(1), m.group(1)) + (m.group(2) or '')
 
@@ -138,6 +152,7 @@ def generate():
         'split': lambda: (W(split_spec()), {}),
         'ghost': lambda: (W(ghost_spec()), {}),
         'null': lambda: (W(null_spec()), {}),
+        'chsplit': lambda: (W(chsplit_spec()), {}),
         'comb': lambda: (W.combine(W(base_spec()).prune(channels=['SR']), W(base_spec()).prune(channels=['CR']), join='outer'), {}),
     }
     MAIN_TOO = ('prCR', 'prSR')
